@@ -609,3 +609,55 @@ V("mutscan: session ignores a handed-in action", "C18", G, """        if action 
             pass
 
         # a file that is handed in twice""", "R18.2")
+
+# ---- second mutation scan (operator set 2: Python-semantics slips), survivors of the suite that were silent before the rule named here
+V("mutscan2: verify -dh -h FORMAT puts nothing on the list of formats", "C09", C, """    else:
+        hash_formats.append(hash_format)
+        logger.verbose(f"hash format: {hash_format}")""", """    else:
+        pass""", "R9.7")
+V("mutscan2: root comparison looks at the first generation only (verify -dh)", "C09", C, """        if folder_path == root_path:
+            for hash_list in existing_history.hash_lists:""", """        if folder_path == root_path:
+            for hash_list in list(existing_history.hash_lists)[:1]:""", "R9.8")
+V("mutscan2: root comparison looks at the first root entry only (verify -dh)", "C09", C, "                    for root_hash_entry in root_hash_entries:", "                    for root_hash_entry in list(root_hash_entries)[:1]:", "R9.8")
+V("mutscan2: the `original` lookup looks at the first entry of a record only", "C04", HI, """            for hash_entry in media_hash.hash_entries:
+                if hash_entry.action == "original":""", """            for hash_entry in list(media_hash.hash_entries)[:1]:
+                if hash_entry.action == "original":""", "R4.2")
+V("mutscan2: info -sf lists the first named file only", "C19", C, """    for path in single_file:
+        relative_path = existing_history.get_relative_file_path(os.path.abspath(path))
+        logger.info(f"{relative_path}:")""", """    for path in list(single_file)[:1]:
+        relative_path = existing_history.get_relative_file_path(os.path.abspath(path))
+        logger.info(f"{relative_path}:")""", "R19.3")
+V("mutscan2: diff does not count files without an original entry as new", "C03", C, """            if original_hash_entry is None:
+                logger.error(f"found new file {relative_path}")
+                num_new_files += 1
+                continue
+
+    exception = test_for_missing_files(not_found_paths, root_path, ignore_spec)
+    if num_failed_verifications > 0:""", """            if original_hash_entry is None:
+                pass
+
+    exception = test_for_missing_files(not_found_paths, root_path, ignore_spec)
+    if num_failed_verifications > 0:""", "R3.12")
+V("mutscan2: verify -pl branch emptied (falls through to the plain verify)", "C18", C, """    if packing_list is not None:
+        verify_entire_folder(
+            root_path, verbose, single_file, packing_list, ignore_list, ignore_spec_file, calculate_only
+        )
+        return""", """    if packing_list is not None:
+        pass""", "R18.4")
+V("mutscan2: the previous-path search of diff looks at the first generation only", "C17", C, """            for hash_list in existing_history.hash_lists:
+                for media_hash in hash_list.media_hashes:
+                    if media_hash.path != history_relative_path:
+                        continue
+                    history_relative_path = media_hash.previous_path or history_relative_path
+                    break
+
+            # check if there is an existing hash in the other generations and verify
+            original_hash_entry = history.find_original_hash_entry_for_path(history_relative_path)""", """            for hash_list in list(existing_history.hash_lists)[:1]:
+                for media_hash in hash_list.media_hashes:
+                    if media_hash.path != history_relative_path:
+                        continue
+                    history_relative_path = media_hash.previous_path or history_relative_path
+                    break
+
+            # check if there is an existing hash in the other generations and verify
+            original_hash_entry = history.find_original_hash_entry_for_path(history_relative_path)""", "R17.3")
